@@ -352,15 +352,10 @@ func installEnvStubs(e *Engine) {
 	}
 	S["os.Stat"] = func(e *Engine, st *State, c *callInfo, a []Value) Value {
 		path := mustConcreteStr(a[0], "Stat path")
+		// closed world: exactly the files written to the ghost disk exist, plus the ghost directories
 		ex := e.getFile(st, path).exists
-		if _, ok := st.ghost["file:"+path]; !ok {
-			// directories and unmodelled paths: arbitrary existence
-			if v, ok2 := st.ghost["dir:"+path]; ok2 {
-				ex = v.(*Term)
-			} else {
-				ex = FreshBool("exists:" + path)
-				st.ghost["dir:"+path] = ex
-			}
+		if path == "/ghost" || strings.HasSuffix(path, "watttime_data") {
+			ex = True()
 		}
 		return &TupleV{E: []Value{nilIface(), errIf(Not(ex), e.notExistErr(st))}}
 	}
